@@ -73,6 +73,11 @@ func truthMembers(i *IRCServer) map[string]map[string]bool {
 }
 
 type c12Oracle struct {
+	// restoreEvery > 0: after every restoreEvery-th entry the instance is replaced by what a node
+	// that restores a snapshot holds (Marshal + Unmarshal); the property holds in those states too
+	restoreEvery int
+	restores     int
+
 	rec     *vh.Recorder
 	members map[string]map[string]bool // event-driven model: lc channel -> member keys
 	preV    *c12View
@@ -89,6 +94,10 @@ func (o *c12Oracle) begin(i *IRCServer, c *hcase, rt *rapid.T) {
 	o.sub = map[string]bool{}
 	o.kicked = map[string]bool{}
 	o.everLink = map[uint64]bool{}
+	o.restoreEvery = param(c, rt, "restore_every", 0, 12)
+	if o.restoreEvery == 1 {
+		o.restoreEvery = 0
+	}
 }
 
 func (o *c12Oracle) pre(i *IRCServer, idx int, e ircgen.Entry) { o.preV = takeC12View(i) }
@@ -521,6 +530,18 @@ func diffMembers(model, truth map[string]map[string]bool) string {
 		d = d[:4]
 	}
 	return strings.Join(d, "; ")
+}
+
+func (o *c12Oracle) replace(i *IRCServer, idx int) (*IRCServer, *vh.Failure) {
+	if o.restoreEvery == 0 || (idx+1)%o.restoreEvery != 0 {
+		return i, nil
+	}
+	b, err := roundTrip(i)
+	if err != nil {
+		return i, nil // serialization errors are C03's subject
+	}
+	o.restores++
+	return b, nil
 }
 
 func (o *c12Oracle) end(i *IRCServer) *vh.Failure { return nil }
